@@ -93,9 +93,10 @@ pub fn build(
         "components": components(prop),
     });
     if prop == "C14" {
-        let total = crate::gen_sixel::canonical_total();
+        let thorough = tier == crate::scenario::Tier::Thorough;
+        let total = crate::gen_sixel::canonical_total(thorough);
         coverage["canonical_schedule_space"] = json!({
-            "definition": "k<=3 images, all orderings of arrivals and releases, 0..2 polls in each of the 2k+1 gaps",
+            "definition": format!("k<={} images, all orderings of arrivals and releases, 0..2 polls in each of the 2k+1 gaps", crate::gen_sixel::canonical_kmax(thorough)),
             "size": total,
             "swept_by_run_index": planned_runs.min(total),
             "complete": planned_runs >= total,
